@@ -38,6 +38,8 @@ type c04Case struct {
 	GE                    bool
 	MaxPts, MaxDev        int
 	Second                *c04Case `json:",omitempty"` // pair: a second term of the same expression
+	Def                   string   `json:",omitempty"` // DefaultDiceSideExpr for this case (faceless dice: the Y of the case)
+	PrevDef               string   `json:",omitempty"` // a faceless die was rolled on the same VM under this earlier setting
 }
 
 func ip(i int) *int { return &i }
@@ -109,6 +111,20 @@ func c04Enumerate(tier string, seed int64, emit func(string, any)) {
 							src += "max" + numTxt(*m.max)
 						}
 						emit("common", c04Case{Kind: "common", Src: src, X: x, Y: y, Mode: mode, N: nn, Min: m.min, Max: m.max})
+						if x >= 1 && y >= 1 {
+							// the same term with the sides left out and supplied by DefaultDiceSideExpr (plain number, or an expression),
+							// on a fresh VM and on a VM that rolled a faceless die under a different setting before
+							fsrc := numTxt(x) + d + src[len(numTxt(x)+d+numTxt(y)):]
+							def := strconv.Itoa(y)
+							if variant%3 == 0 {
+								def = fmt.Sprintf("%d+1", y-1)
+							}
+							fc := c04Case{Kind: "common", Src: fsrc, X: x, Y: y, Mode: mode, N: nn, Min: m.min, Max: m.max, Def: def}
+							if variant%2 == 0 {
+								fc.PrevDef = strconv.Itoa(y + 2)
+							}
+							emit("faceless", fc)
+						}
 					}
 				}
 			}
@@ -384,6 +400,14 @@ func c04Run(raw json.RawMessage) harn.Result {
 	}
 	cfg := drv.AllOn()
 	vm := drv.NewVM(cfg)
+	if c.PrevDef != "" {
+		vm.Config.DefaultDiceSideExpr = c.PrevDef
+		if err := vm.Run("2d + d"); err != nil {
+			panic(err)
+		}
+	}
+	vm.Config.DefaultDiceSideExpr = c.Def
+	var sidesSeen []int64
 	var perr error
 	if site, p := harn.Guard(func() { perr = vm.Parse(c.Src) }); p {
 		viol(site, "panic in Parse")
@@ -399,6 +423,7 @@ func c04Run(raw json.RawMessage) harn.Result {
 	ds.VerifRollHook = func(src *rand.PCGSource, sides ds.IntType) (ds.IntType, bool) {
 		f := faceOf(cur, int64(sides))
 		faces = append(faces, int(f))
+		sidesSeen = append(sidesSeen, int64(sides))
 		return ds.IntType(f), true
 	}
 	defer func() { ds.VerifRollHook = nil }()
@@ -425,6 +450,7 @@ func c04Run(raw json.RawMessage) harn.Result {
 	}(), func(cc *choice.Ctx) {
 		cur = cc
 		faces = faces[:0]
+		sidesSeen = sidesSeen[:0]
 		vm.VerifResetForRerun()
 		var err error
 		if site, p := harn.Guard(func() { err = vm.RunAfterParsed() }); p {
@@ -448,6 +474,14 @@ func c04Run(raw json.RawMessage) harn.Result {
 		}
 		if cc.Forced {
 			res.Stats["runs_truncated"]++
+		}
+		if c.Kind == "common" {
+			for _, sd := range sidesSeen {
+				if sd != int64(c.Y) {
+					viol("C04:sides", fmt.Sprintf("a die of this term was rolled with %d sides, the term has %d (DefaultDiceSideExpr %q, earlier %q)", sd, c.Y, c.Def, c.PrevDef))
+					break
+				}
+			}
 		}
 		if vm.RestInput != "" {
 			viol("MACHINERY:generator", fmt.Sprintf("generated term is not consumed entirely: rest %q", vm.RestInput))
